@@ -1,6 +1,7 @@
 import SpectraVerif.Driver.Util
 import SpectraVerif.Gen.BK
 import SpectraVerif.Model.BKLDLT
+import SpectraVerif.Model.BKLDLTC
 namespace Drv.C10
 open Gen.BK
 
@@ -68,8 +69,35 @@ def bkldlt32 (args : List String) : Option String := do
       pure s!"{f.info} {if f.s.ok then 1 else 0} P {perm} D {showFs32 f.s.data} X -"
   | _ => none
 
+/-- complex Hermitian: `bkldltc n uplo rowMajor alpha shift <n*n matrix memory as re im pairs> <n rhs as re im pairs>` ->
+    `info ok P <perm> D <packed data, re im pairs> X <solution, re im pairs | ->` (model: Model/BKLDLTC.lean at `Float`) -/
+def cxArr? (l : List String) : Option (Array (BKLDLTC.Cx Float)) := do
+  let a ← floatArr? l
+  if a.size % 2 ≠ 0 then none
+  pure ((Array.range (a.size / 2)).map (fun i => ⟨a.getD (2 * i) 0.0, a.getD (2 * i + 1) 0.0⟩))
+def showCs (a : Array (BKLDLTC.Cx Float)) : String := joinSp (a.toList.map (fun z => fb z.re ++ " " ++ fb z.im))
+
+def bkldltc (args : List String) : Option String := do
+  match args with
+  | n :: uplo :: rm :: alpha :: shift :: rest =>
+    let n ← parseNat? n; let uplo ← parseInt? uplo; let rm ← parseNat? rm
+    let alpha ← ofBits? alpha; let shift ← ofBits? shift
+    let (m, rest) ← takeN? (2 * n * n) rest
+    let (b, rest) ← takeN? (2 * n) rest
+    if rest ≠ [] then none
+    let src ← cxArr? m; let b ← cxArr? b
+    let f := BKLDLTC.compute (β := Float) src (rm == 1) (n : Int) uplo shift alpha
+    let perm := joinSp (f.s.perm.toList.map toString)
+    if f.info == 0 then
+      let v := BKLDLTC.solve_inplace f b
+      pure s!"{f.info} {if v.s.ok then 1 else 0} P {perm} D {showCs f.s.data} X {showCs v.x}"
+    else
+      pure s!"{f.info} {if f.s.ok then 1 else 0} P {perm} D {showCs f.s.data} X -"
+  | _ => none
+
 def handle : List String → Option String
   | "bkldlt" :: args => bkldlt args
+  | "bkldltc" :: args => bkldltc args
   | "bkldlt32" :: args => bkldlt32 args
   | ["solve2", e11, e21, e22, b1, b2] => do
       let e11 ← ofBits? e11; let e21 ← ofBits? e21; let e22 ← ofBits? e22; let b1 ← ofBits? b1; let b2 ← ofBits? b2
